@@ -62,7 +62,7 @@ def run(ctx):
     cli = runner.build_cli()
     rt_common.configure(ctx, ctx.pick(2, 3))
     analyzers = [("e3_oracles", "analyze_c12_static"), ("rt_common", "analyze_c12_dynamic"), ("rt_common", "analyze_c11_dynamic")]
-    results = e3.run_cases(ctx, cli, ["keys", "rt_text"], ctx.pick(30, 1000), "c12", analyzers)
+    results = e3.run_cases(ctx, cli, ["keys", "rt_text"], ctx.pick(20, 1000), "c12", analyzers)
     # 120 argument lists per program: 90 programs = ~10^4 lists (quick), 900 = ~10^5 (thorough)
     micro = e3.run_cases(ctx, cli, ["args_big"], ctx.pick(90, 900), "c12m", analyzers + [("rt_common", "analyze_c12_micro")],
                          with_checked_in=False)
